@@ -960,6 +960,14 @@ class state_machine_base : public FrontEnd
             deferred_event<Event>{self(), event, seq_cnt}));
     }
 
+    // Clears the processing marker at scope exit, also when an entry
+    // behaviour throws (the machine must not stay blocked afterwards).
+    struct event_processing_reset
+    {
+        ~event_processing_reset() { m_flag = false; }
+        bool& m_flag;
+    };
+
     template <class Event, class Fsm>
     void preprocess_entry(Event const& event, Fsm& fsm)
     {
@@ -1007,6 +1015,7 @@ class state_machine_base : public FrontEnd
     template <class Event, class Fsm>
     void on_entry(Event const& event, Fsm& fsm)
     {
+        event_processing_reset reset_if_thrown{m_event_processing};
         preprocess_entry(event, fsm);
 
         state_entry_visitor<Event> visitor{self(), event};
@@ -1018,6 +1027,7 @@ class state_machine_base : public FrontEnd
     template <class TargetStates, class Event, class Fsm>
     void on_explicit_entry(Event const& event, Fsm& fsm)
     {
+        event_processing_reset reset_if_thrown{m_event_processing};
         preprocess_entry(event, fsm);
 
         using state_identities =
